@@ -108,10 +108,11 @@ def r_arity(c):
         raise AnalysisError(f"only {n} HighLevelOp constructions found (floor 6)")
 
 
-def _splat_lengths(fd, st):
+def _splat_lengths(fd, st, depth=0):
     """lengths the splatted value can have, or None if some branch leaves it open.
     Understands ``_as_array_or_scalar(X, ...)`` (same length as X), tuple
-    displays, and names assigned in if/elif arms guarded by len() tests."""
+    displays, and names assigned (possibly through further names) in if/elif arms
+    guarded by len() tests."""
     if isinstance(st, ast.Call) and ast.unparse(st.func).endswith("_as_array_or_scalar") \
             and st.args:
         st = st.args[0]
@@ -120,11 +121,20 @@ def _splat_lengths(fd, st):
     if isinstance(st, ast.Name):
         out = []
         for asg in ast.walk(fd):
-            if isinstance(asg, ast.Assign) and any(
-                    isinstance(t, ast.Name) and t.id == st.id for t in asg.targets):
+            if isinstance(asg, (ast.Assign, ast.AnnAssign)) and asg.value is not None and any(
+                    isinstance(t, ast.Name) and t.id == st.id for t in (
+                        asg.targets if isinstance(asg, ast.Assign) else [asg.target])):
                 v = asg.value
                 if isinstance(v, ast.Tuple):
                     out.append(len(v.elts))
+                    continue
+                if depth < 3 and (isinstance(v, ast.Name) or (
+                        isinstance(v, ast.Call)
+                        and ast.unparse(v.func).endswith("_as_array_or_scalar"))):
+                    sub = _splat_lengths(fd, v, depth + 1)
+                    if sub is None:
+                        return None
+                    out += sub
                     continue
                 # look for a len(<v>) == n guard: in the enclosing arm's test, or a
                 # preceding `if len(v) != n: raise` in the same block
@@ -463,10 +473,10 @@ def r_patterns(c):
     #      accepts an operand only through its exact broadcast subscript
     b = m.func(R + "._is_idx_lambda_broadcast_op")
     bp = b.args.args[0].arg
-    fs_ = find(b, f"$fs = {bp}.bindings[$n].shape")
-    ts_ = find(b, f"$ts = {bp}.shape")
-    okb = len(fs_) == 1 and len(ts_) == 1 and has(
-        b, f"{bp}.expr.index_tuple == get_indexing_expression({fs_[0]['$fs']}, {ts_[0]['$ts']})")
+    # (on the normal form: whichever of the lambda's expression, the operand's shape
+    # and the lambda's shape are held in locals)
+    okb = has(m.normal(b), f"{bp}.expr.index_tuple == get_indexing_expression("
+                           f"{bp}.bindings[$$n].shape, {bp}.shape)")
     c.check(okb, "R19-PATTERN", "_is_idx_lambda_broadcast_op",
             "subscript-is-the-exact-broadcast-subscript", m.loc(m.module_of(b), b),
             "the broadcast recogniser looks at shapes only: a permuted or offset "
